@@ -41,6 +41,9 @@ Definition run_pass (p : pass) (ss : schemas) : res schemas :=
   | PDisjunctionInferMapping => disjunction_infer_mapping ss
   | PUndiscriminatedDisjunctionToAny => undiscriminated_disjunction_to_any ss
   | PDisjunctionToType => disjunction_to_type ss
+  | PRemoveIntersections => remove_intersections ss
+  | PInlineObjectsWithTypes kinds => inline_objects_with_types kinds ss
+  | PDataqueryIdentification => dataquery_identification ss
   | _ => Err "UNMODELLED"
   end.
 
@@ -56,7 +59,8 @@ Definition modelled (p : pass) : bool :=
   | PAnonymousEnumToExplicitType | PPrefixEnumValues | PSanitizeEnumMemberNames
   | PRenameNumericEnumValues | PDisjunctionWithConstantToDefault
   | PDisjunctionOfConstantsToEnum | PFlattenDisjunctions | PDisjunctionOfAnonymousStructsToExplicit
-  | PDisjunctionInferMapping | PUndiscriminatedDisjunctionToAny | PDisjunctionToType => true
+  | PDisjunctionInferMapping | PUndiscriminatedDisjunctionToAny | PDisjunctionToType
+  | PRemoveIntersections | PInlineObjectsWithTypes _ | PDataqueryIdentification => true
   | _ => false
   end.
 
